@@ -487,15 +487,7 @@ theorem findPaste_closed (ms : Macros) (tgt : Nat) : ∀ fuel : Nat,
                   rcases List.mem_cons.mp hc with hc | hc
                   · exact hxd hc
                   · exact hnx hc
-              · rename_i hm
-                cases h
-                refine ⟨fun x hx => List.mem_cons_of_mem _ hx, ⟨List.mem_cons_self .., hne⟩, ?_⟩
-                intro x hx hnx mx hmx
-                rcases List.mem_cons.mp hx with hx | hx
-                · subst hx
-                  rw [hm] at hmx
-                  cases hmx
-                · exact absurd hx hnx
+              · cases h
       · rename_i hk
         simp only [hk]
         exact ihL _ _ _ h
@@ -1361,6 +1353,189 @@ theorem expandList_drop (A : Macros) (x : Nat × Tree) (C : Macros) (rest : List
   rw [← expandList_le _ (expandFuel_mono hsz rest) _ _ _ hnf,
     ← (expand_drop A x C hclean' _).2 rest hrest]
   exact h
+
+/-! ## 5b. Undefined macros inside macro bodies (the recursion check reports them: "macro not found") -/
+
+theorem get?_isSome_of_mem {ms : Macros} {n : Nat} {m : Tree} (h : (n, m) ∈ ms) :
+    (ms.get? n).isSome := by
+  induction ms with
+  | nil => cases h
+  | cons x r ih =>
+    rw [get?_cons]
+    rcases List.mem_cons.mp h with h | h
+    · subst h
+      simp
+    · split
+      · rfl
+      · exact ih h
+
+theorem get?_none_of_keys {ms : Macros} {n : Nat} (h : ∀ p ∈ ms, p.1 ≠ n) : ms.get? n = none := by
+  induction ms with
+  | nil => rfl
+  | cons x r ih =>
+    rw [get?_cons]
+    have hx : (x.1 == n) = false := by simpa using h x (List.mem_cons_self ..)
+    simp only [hx, Bool.false_eq_true, if_false]
+    exact ih (fun p hp => h p (List.mem_cons_of_mem _ hp))
+
+theorem mem_pastesL {t : Tree} {l : List Tree} {n : Nat} (ht : t ∈ l) (hn : n ∈ pastes t) :
+    n ∈ pastes.pastesL l := by
+  induction l with
+  | nil => cases ht
+  | cons a r ih =>
+    rw [pastes.pastesL]
+    rcases List.mem_cons.mp ht with rfl | ht
+    · exact List.mem_append_left _ hn
+    · exact List.mem_append_right _ (ih ht)
+
+/-- what a successful `findPaste` has established about definedness: every name that entered `visited`
+    is a defined macro, and every PASTE of the tree has a name, which was visited before or is defined -/
+theorem findPaste_defined (ms : Macros) (tgt : Nat) : ∀ fuel : Nat,
+    (∀ t v v', findPaste ms tgt fuel t v = .ok v' →
+      (∀ x ∈ v', x ∈ v ∨ (ms.get? x).isSome) ∧
+      (∀ n ∈ pastes t, n ≠ 0 ∧ (n ∈ v ∨ (ms.get? n).isSome))) ∧
+    (∀ l v v', findPasteList ms tgt fuel l v = .ok v' →
+      (∀ x ∈ v', x ∈ v ∨ (ms.get? x).isSome) ∧
+      (∀ n ∈ pastes.pastesL l, n ≠ 0 ∧ (n ∈ v ∨ (ms.get? n).isSome))) := by
+  intro fuel
+  induction fuel with
+  | zero =>
+    constructor
+    · intro t v v' h; simp [findPaste] at h
+    · intro l v v' h; simp [findPasteList] at h
+  | succ fuel ih =>
+    rcases ih with ⟨ihT, ihL⟩
+    constructor
+    · intro t v v' h
+      rcases t with ⟨d, kids⟩
+      rw [findPaste] at h
+      rw [pastes]
+      split at h
+      · rename_i hk
+        simp only [hk, if_true, List.mem_singleton, forall_eq]
+        split at h
+        · cases h
+        · rename_i hz
+          have hz' : d.name ≠ 0 := by simpa using hz
+          split at h
+          · cases h
+          · split at h
+            · rename_i hv
+              cases h
+              exact ⟨fun x hx => .inl hx, hz', .inl (by simpa using hv)⟩
+            · split at h
+              · rename_i m hm
+                rcases ihT _ _ _ h with ⟨h1, _⟩
+                have hd : (ms.get? d.name).isSome := by rw [hm]; rfl
+                refine ⟨?_, hz', .inr hd⟩
+                intro x hx
+                rcases h1 x hx with hx | hx
+                · rcases List.mem_cons.mp hx with hx | hx
+                  · subst hx
+                    exact .inr hd
+                  · exact .inl hx
+                · exact .inr hx
+              · cases h
+      · rename_i hk
+        simp only [hk]
+        exact ihL _ _ _ h
+    · intro l v v' h
+      cases l with
+      | nil =>
+        rw [findPasteList] at h
+        cases h
+        exact ⟨fun x hx => .inl hx, by simp [pastes.pastesL]⟩
+      | cons t r =>
+        rw [findPasteList] at h
+        split at h
+        · cases h
+        · rename_i v1 ht
+          rcases ihT _ _ _ ht with ⟨a1, a2⟩
+          rcases ihL _ _ _ h with ⟨b1, b2⟩
+          refine ⟨?_, ?_⟩
+          · intro x hx
+            rcases b1 x hx with hx | hx
+            · exact a1 x hx
+            · exact .inr hx
+          · intro n hn
+            rw [pastes.pastesL] at hn
+            rcases List.mem_append.mp hn with hn | hn
+            · exact a2 n hn
+            · rcases b2 n hn with ⟨hn0, hn | hn⟩
+              · exact ⟨hn0, a1 n hn⟩
+              · exact ⟨hn0, .inr hn⟩
+
+/-- if the check passes then every PASTE in the body of every macro — pasted somewhere or not — has a
+    name, and the name is that of a defined macro -/
+theorem check_defined {ms : Macros} (h : checkRecursion ms = .ok ()) :
+    ∀ p ∈ ms, ∀ n ∈ pastes p.2, n ≠ 0 ∧ (ms.get? n).isSome := by
+  intro p hp n hn
+  rcases go_ok ms ms h p hp with ⟨v', hv⟩
+  rcases ((findPaste_defined ms p.1 _).1 _ _ _ hv).2 n hn with ⟨h0, h1 | h1⟩
+  · refine ⟨h0, ?_⟩
+    rw [List.mem_singleton] at h1
+    rw [h1]
+    exact get?_isSome_of_mem (m := p.2) hp
+  · exact ⟨h0, h1⟩
+
+/-- `collectMacro` loses nothing: the table only grows, every MACRO of the list is entered under its own
+    name, every other tree is kept -/
+theorem collect_complete (l : List Tree) (ms : Macros) (acc : List Tree) (ms' : Macros) (rest : List Tree)
+    (h : collectMacro l ms acc = .ok (ms', rest)) :
+    (∀ p ∈ ms, p ∈ ms') ∧ (∀ t ∈ acc, t ∈ rest) ∧
+    (∀ t ∈ l, t.dir.kind = Gen.Kind.Macro → (t.dir.name, t) ∈ ms') ∧
+    (∀ t ∈ l, t.dir.kind ≠ Gen.Kind.Macro → t ∈ rest) := by
+  induction l generalizing ms acc with
+  | nil =>
+    rw [collectMacro] at h
+    cases h
+    exact ⟨fun p hp => hp, fun t ht => ht, fun t ht => (by cases ht), fun t ht => (by cases ht)⟩
+  | cons t r ih =>
+    rw [collectMacro] at h
+    split at h
+    · rename_i hkt
+      have hkt' : t.dir.kind = Gen.Kind.Macro := by simpa using hkt
+      split at h
+      · cases h
+      · split at h
+        · cases h
+        · split at h
+          · cases h
+          · split at h
+            · cases h
+            · rcases ih _ _ h with ⟨i1, i2, i3, i4⟩
+              refine ⟨fun p hp => i1 p (List.mem_append_left _ hp), i2, ?_, ?_⟩
+              · intro u hu hku
+                rcases List.mem_cons.mp hu with rfl | hu
+                · exact i1 _ (List.mem_append_right _ (List.mem_singleton.mpr rfl))
+                · exact i3 u hu hku
+              · intro u hu hku
+                rcases List.mem_cons.mp hu with rfl | hu
+                · exact absurd hkt' hku
+                · exact i4 u hu hku
+    · rename_i hkt
+      have hkt' : t.dir.kind ≠ Gen.Kind.Macro := by simpa using hkt
+      rcases ih _ _ h with ⟨i1, i2, i3, i4⟩
+      refine ⟨i1, fun u hu => i2 u (List.mem_append_left _ hu), ?_, ?_⟩
+      · intro u hu hku
+        rcases List.mem_cons.mp hu with rfl | hu
+        · exact absurd hku hkt'
+        · exact i3 u hu hku
+      · intro u hu hku
+        rcases List.mem_cons.mp hu with rfl | hu
+        · exact i2 _ (List.mem_append_right _ (List.mem_singleton.mpr rfl))
+        · exact i4 u hu hku
+
+/-- a name that no MACRO of the source bears is not in the collected table -/
+theorem collect_get?_none {roots : List Tree} {ms : Macros} {rest : List Tree} {n : Nat}
+    (hc : collectMacro roots [] [] = .ok (ms, rest))
+    (hu : ∀ t ∈ roots, t.dir.kind = Gen.Kind.Macro → t.dir.name ≠ n) : ms.get? n = none := by
+  apply get?_none_of_keys
+  intro p hp
+  rcases collect_entries _ _ _ _ _ hc p hp with h1 | ⟨h1, h2, h3⟩
+  · cases h1
+  · rw [h3]
+    exact hu _ h1 h2
 
 /-! ## 6. Decidable equality of forests and results (only for the closing `example`s of the Props file;
       not global instances) -/
